@@ -91,6 +91,9 @@ impl Default for Neon {
 impl Neon {
     #[target_feature(enable = "neon")]
     unsafe fn mul_neon(&self, x: &mut [[u8; 64]], log_m: GfElement) {
+        #[cfg(feature = "verif-hooks")]
+        crate::verif_hooks::trace_isa(crate::verif_hooks::ISA_NEON);
+
         let lut = &self.mul128[log_m as usize];
 
         for chunk in x.iter_mut() {
@@ -269,6 +272,9 @@ impl Neon {
         truncated_size: usize,
         skew_delta: usize,
     ) {
+        #[cfg(feature = "verif-hooks")]
+        crate::verif_hooks::trace_isa(crate::verif_hooks::ISA_NEON);
+
         // Drop unsafe privileges
         self.fft_private(data, pos, size, truncated_size, skew_delta);
     }
@@ -421,6 +427,9 @@ impl Neon {
         truncated_size: usize,
         skew_delta: usize,
     ) {
+        #[cfg(feature = "verif-hooks")]
+        crate::verif_hooks::trace_isa(crate::verif_hooks::ISA_NEON);
+
         // Drop unsafe privileges
         self.ifft_private(data, pos, size, truncated_size, skew_delta);
     }
@@ -483,6 +492,9 @@ impl Neon {
 impl Neon {
     #[target_feature(enable = "neon")]
     unsafe fn eval_poly_neon(erasures: &mut [GfElement; GF_ORDER], truncated_size: usize) {
+        #[cfg(feature = "verif-hooks")]
+        crate::verif_hooks::trace_isa(crate::verif_hooks::ISA_NEON);
+
         utils::eval_poly(erasures, truncated_size);
     }
 }
